@@ -343,7 +343,13 @@ class Run(ExtraOps):
         if must_raise is not None:
             ent = Entry(rel, parents[0].mv, op, parents)
             self.violate("order_loss_missing", {"op": op}, entry=ent)
-        mv = model_fn(rel)
+        try:
+            mv = model_fn(rel)
+        except ZeroDivisionError:
+            # the applied sequence itself evaluates a partial column function outside its domain: whatever the
+            # library does with it is the caller's problem, not a property of the library
+            self.logev(i, op["k"], "partial-model")
+            return self.alias(op, parents[0], "partial-model")
         ent = Entry(rel, mv, op, parents)
         ent.events |= MON.events
         self.pool.append(ent)
@@ -597,6 +603,8 @@ class Run(ExtraOps):
             u |= pred_udfs(op["p"])
         for tm in op.get("terms", []):
             u |= expr_udfs(tm[0])
+        if "pdiv" in u and (M.is_sql(t.mv.engine) or op.get("pe") is not None):
+            return False
         return "only2" not in u or (t.mv.engine == "it2" and op.get("pe") in (None, "it2"))
 
     def shared_apply(self, op, t, make):
